@@ -500,7 +500,8 @@ def main():
         return replay_file(prop, a.replay)
     seed = int(os.environ.get("VERIF_SEED", "0") or 0)
     caps = P.TIERS[tier]
-    hs = [h for h in prop["harnesses"] if tier == "thorough" or h.get("tier", "quick") == "quick"]
+    exp = bool(os.environ.get("VERIF_EXPERIMENTAL"))
+    hs = [h for h in prop["harnesses"] if h.get("tier", "quick") == "quick" or (tier == "thorough" and h.get("tier") == "thorough") or (exp and h.get("tier") == "experimental")]
     if a.only:
         hs = [h for h in hs if a.only in h["name"]]
     random.Random(seed).shuffle(hs)
